@@ -14,6 +14,15 @@ Theorem C10_load_spec : forall (p : profile) (a : N) (bs : list byte),
 Proof. exact c10_load_spec. Qed.
 Print Assumptions C10_load_spec.
 
+(* a pointer that is NOT 8-aligned: never a header, never a panic, nothing beyond the 16 header bytes is read, and
+   magic, architecture and checksum are not even examined *)
+Theorem C10_misaligned : forall (p : profile) (a : N) (bs : list byte),
+  a mod 8 <> 0 -> 16 <= len bs ->
+  hdr_load p false {| m_base := a; m_bytes := bs |} =
+    if le (slice bs 8 4) <? 16 then Err EShorterThanHeader else Err EWrongAlignment.
+Proof. exact c10_misaligned. Qed.
+Print Assumptions C10_misaligned.
+
 Theorem C10_null : forall p m, hdr_load p true m = Err ENull.
 Proof. exact c10_null. Qed.
 Print Assumptions C10_null.
